@@ -228,6 +228,49 @@ def run(F, res, tier):
         res.ob("G3", "%s-members-handled" % setname,
                "every member of %s is handled by %s() (a member without an arm would be accepted by the guard and then not consumed)" % (setname, fnname),
                not dead, where=fn.loc(ln), how="all handled" if not dead else "in the set without an arm: %s" % sorted(dead))
+    # G3 per call site: a guard `if p.at_any(SET) { callee(p) }` must admit every token the callee can start with
+    FIRST_OF = {"syntax::parser::expr": "EXPR_FIRST", "syntax::parser::expr_bp": "EXPR_FIRST", "syntax::parser::pattern": "PATTERN_FIRST",
+                "syntax::parser::type_expr": "TYPE_FIRST"}
+    nsites = 0
+    for p_, g_ in sorted(F.fns.items()):
+        if not p_.startswith("syntax::parser::") or p_.startswith(PM.P) or not g_.blocks:
+            continue
+        dg = None
+        for b, t in g_.calls():
+            c = callee(t)
+            if c not in FIRST_OF:
+                continue
+            if dg is None:
+                dg = FL.Defs(g_)
+            need = members(bits(FIRST_OF[c]))
+            for gt in FL.gates(F, g_, [b], dg):
+                if gt.get("callee") != PM.P + "at_any" or gt["allowed"] != [True]:
+                    continue
+                # the guard must speak about the token the callee starts with: nothing is consumed in between
+                between = [bb for bb, tt in g_.calls() if bb != b and bb != gt["bb"] and g_.dominates(gt["bb"], bb) and g_.dominates(bb, b)
+                           and ((callee(tt) or "").startswith("syntax::parser::") and
+                                (callee(tt) or "") not in (PM.P + "start_node", PM.P + "at", PM.P + "at_any", PM.P + "nth", PM.P + "eof", PM.P + "error"))]
+                if between:
+                    continue
+                a = gt["call_t"]["args"][1]
+                kdef = (a.get("k") or {}).get("def") if isinstance(a.get("k"), dict) else None
+                if kdef is None:
+                    ao = dg.origin_op(a)
+                    kdef = (ao.get("c") or {}).get("def") if ao.get("k") == "const" else None
+                if not kdef or not kdef.startswith("syntax::parser::"):
+                    continue
+                try:
+                    have = members(F.const_bits(kdef))
+                except Exception:  # noqa
+                    continue
+                nsites += 1
+                ordn = [bb for bb, tt in g_.calls() if callee(tt) == c].index(b)
+                missing = sorted(need - have)
+                res.ob("G3", "guard/%s/%s/%d" % (p_.rsplit("::", 1)[-1], c.rsplit("::", 1)[-1], ordn),
+                       "the set guarding this call of %s() contains %s, so no construct %s() implements is rejected here"
+                       % (c.rsplit("::", 1)[-1], FIRST_OF[c], c.rsplit("::", 1)[-1]), not missing, where=g_.loc(t["ln"]),
+                       how="guard %s" % kdef.rsplit("::", 1)[-1] if not missing else "guard %s lacks %s" % (kdef.rsplit("::", 1)[-1], missing))
+    res.floor("guarded call sites of expr/pattern/type_expr", nsites, 12)
     accessor_rules(F, res, pure, kinds)
 
 
